@@ -29,6 +29,9 @@ pub enum Step {
     T,
     /// a disposable picture of another size made of intra macroblocks only: accepted, must not touch the reference
     X,
+    /// a picture with a type code the property does not name (Sorenson type 3) whose every macroblock is "not
+    /// coded": taken or refused - if taken, what it shows must not come from a disposable picture
+    R,
 }
 
 impl Step {
@@ -41,6 +44,7 @@ impl Step {
             Step::C => 'C',
             Step::T => 'T',
             Step::X => 'X',
+            Step::R => 'R',
         }
     }
 }
@@ -220,6 +224,55 @@ pub fn run_history(ctx: &Ctx, steps: &[Step], tr_policy: u64, sorenson: bool, rn
                 reference = last;
                 since_ref_event = false;
             }
+            Step::R => {
+                let mut pic = vector_field_picture(rng, &cfg, false);
+                match &mut pic.hdr {
+                    Hdr::Sor(hd) => hd.ptype = 3,
+                    _ => continue,
+                }
+                for mb in pic.mbs.iter_mut() {
+                    *mb = SymMb::NotCoded;
+                }
+                let b = pic.encode();
+                fp = fnv64_more(fp, &b);
+                rep.count("other_type_all_not_coded_pictures");
+                match dec.decode(&b) {
+                    Outcome::Err(_) => {
+                        rep.count("other_type_all_not_coded_refused");
+                        since_ref_event = true;
+                    }
+                    Outcome::Panic { msg, loc } => {
+                        rep.violation(format!("panic@{}", loc), ctxs(&msg), coords());
+                        return;
+                    }
+                    Outcome::Ok => {
+                        let got = dec.planes().unwrap();
+                        let Some(r) = reference else {
+                            rep.count("void:other-type-accepted-without-reference");
+                            return;
+                        };
+                        if got == stored[r].planes {
+                            // a repeat of the reference; it is the most recent picture now and, not being
+                            // disposable, the reference (same content either way)
+                            rep.count("other_type_all_not_coded_repeats_reference");
+                            if last != reference {
+                                rep.count("other_type_all_not_coded_after_disposable");
+                                nontrivial = true;
+                            }
+                            stored.push(Stored { planes: got, tr, kind: Step::R });
+                            last = Some(stored.len() - 1);
+                            reference = last;
+                            since_ref_event = false;
+                        } else if let Some(j) = (0..stored.len()).find(|j| matches!(stored[*j].kind, Step::D | Step::X) && stored[*j].planes == got) {
+                            rep.violation("wrong-reference/other-type-shows-a-disposable-picture", ctxs(&format!("an accepted picture of type code 3 with every macroblock not coded shows the content of disposable picture {} instead of the reference {} (kinds so far: {})", j, r, stored.iter().map(|s| s.kind.ch()).collect::<String>())), coords());
+                            return;
+                        } else {
+                            rep.count("void:other-type-shows-something-else");
+                            return;
+                        }
+                    }
+                }
+            }
             Step::X => {
                 // other size, intra macroblocks only, disposable: needs no reference and must not alter it
                 let mut c2 = cfg.clone();
@@ -352,6 +405,7 @@ pub fn run_history(ctx: &Ctx, steps: &[Step], tr_policy: u64, sorenson: bool, rn
                 let type_ok = match s.kind {
                     Step::I => hv.ptype == "IFrame",
                     Step::P | Step::T => hv.ptype == "PFrame",
+                    Step::R => hv.ptype == "Reserved(3)",
                     _ => hv.ptype == "DisposablePFrame",
                 };
                 if planes != s.planes || hv.tr != s.tr as u16 || !type_ok {
@@ -453,6 +507,12 @@ pub fn case(ctx: &Ctx, shard: usize, index: u64, rep: &mut Report) {
         }
         steps.push(alpha[k]);
     }
+    // now and then a picture of another type code (all macroblocks not coded) right after a disposable one or anywhere
+    if sorenson && n < 100 && rng.chance(1, 5) {
+        let after_d: Vec<usize> = (0..steps.len()).filter(|i| steps[*i] == Step::D).collect();
+        let at = if !after_d.is_empty() && rng.chance(2, 3) { *rng.pick(&after_d) + 1 } else { rng.below(steps.len() as u64 + 1) as usize };
+        steps.insert(at, Step::R);
+    }
     let pol = rng.below(5);
     let coords = || crate::mon::coords("C04", ctx, shard, index);
     if shard == 0 && index < 4 {
@@ -519,7 +579,7 @@ pub fn run(ctx: &Ctx) -> (Report, String) {
     if ctx.is_main() {
         let m = ctx.scale_pct;
         rep.require("histories_completed", if thorough { 2_500_000 } else { 150_000 } * m / 100);
-        for k in ["predictions_identified", "predictions_after_non_reference_event", "tr_collision_cases", "trigram:IDP", "trigram:PDP", "trigram:DDP", "trigram:DFP", "trigram:DCP", "bigram:DD", "cleanup_calls", "rejected_inputs", "last_picture_checks", "reference_picture_checks", "early_ending_predicted_pictures", "all_intra_disposable_of_other_size", "trigram:TPP", "trigram:XPP", "calls_repeated_after_transient_source_error", "pictures_with_extra_information_bytes", "predicted_pictures_without_restated_modes"] {
+        for k in ["predictions_identified", "predictions_after_non_reference_event", "tr_collision_cases", "trigram:IDP", "trigram:PDP", "trigram:DDP", "trigram:DFP", "trigram:DCP", "bigram:DD", "cleanup_calls", "rejected_inputs", "last_picture_checks", "reference_picture_checks", "early_ending_predicted_pictures", "all_intra_disposable_of_other_size", "trigram:TPP", "trigram:XPP", "calls_repeated_after_transient_source_error", "pictures_with_extra_information_bytes", "predicted_pictures_without_restated_modes", "other_type_all_not_coded_pictures"] {
             rep.require(k, 100 * m / 100);
         }
     }
@@ -550,6 +610,7 @@ pub fn replay(ctx: &Ctx, j: &J, rep: &mut Report) {
                 'F' => Step::F,
                 'T' => Step::T,
                 'X' => Step::X,
+                'R' => Step::R,
                 _ => Step::C,
             })
             .collect();
